@@ -22,6 +22,24 @@ pub open spec fn empty_post(i: Seq<u8>, ext_len: u16, r: IResult<&[u8], TlsExten
     if ext_len != 0 { r is Err && r->Err_0 is Error && r->Err_0->Error_0.code == ErrorKind::Verify }
     else { match r { Ok((rem, e)) => is_it(e) && rem@ =~= i, Err(_) => false } }
 }
+
+pub open spec fn be16s(s: Seq<u8>, o: int) -> int { (s[o] as int) * 256 + (s[o + 1] as int) }
+pub open spec fn ext_present(i: Seq<u8>, o: int) -> bool { i.len() >= o + 2 && i.len() >= o + 2 + be16s(i, o) }
+// early_data (RFC 8446 4.2.10): empty, or max_early_data_size u32
+pub open spec fn early_data_post(i: Seq<u8>, ext_len: u16, r: IResult<&[u8], TlsExtension>) -> bool {
+    if ext_len == 0 { match r { Ok((rem, TlsExtension::EarlyData(None))) => rem@ =~= i, _ => false } }
+    else if i.len() < 4 { is_incomplete(r) }
+    else { match r { Ok((rem, TlsExtension::EarlyData(Some(v)))) => v as int == be_val(i, 4) && rem@ =~= i.subrange(4, i.len() as int), _ => false } }
+}
+// signed_certificate_timestamp content (RFC 6962 3.3.1): an optional u16-prefixed list; absent (or not fitting) => None, nothing consumed
+pub open spec fn sct_ext_post(i: Seq<u8>, r: IResult<&[u8], TlsExtension>) -> bool {
+    match r {
+        Ok((rem, TlsExtension::SignedCertificateTimestamp(d))) =>
+            if ext_present(i, 0) { d is Some && d->Some_0@ =~= i.subrange(2, 2 + be16s(i, 0)) && rem@ =~= i.subrange(2 + be16s(i, 0), i.len() as int) }
+            else { d is None && rem@ =~= i },
+        _ => false,
+    }
+}
 '''
 
 def opaque(fn, variant):
@@ -74,6 +92,16 @@ UNIT = {
         single("parse_tls_extension_record_size_limit", "be_u16", 2, "RecordSizeLimit", "u16"),
         u8_prefixed("parse_tls_extension_ec_point_formats_content", "EcPointFormats"),
         u8_prefixed("parse_tls_extension_renegotiation_info_content", "RenegotiationInfo"),
+        {"file": F_EXT, "kind": "fn", "name": "parse_tls_extension_early_data_content",
+         "subst": [(r"map\(cond\(ext_len > 0, be_u32\), TlsExtension::EarlyData\)\(i\)", "map(cond(ext_len > 0, be_u32), |x: Option<u32>| -> (e: TlsExtension<'a>) ensures e == TlsExtension::EarlyData(x) { TlsExtension::EarlyData(x) })(i)"),
+                   (r"fn parse_tls_extension_early_data_content\(i: &\[u8\], ext_len: u16\) -> IResult<&\[u8\], TlsExtension>", "fn parse_tls_extension_early_data_content<'a>(i: &'a [u8], ext_len: u16) -> IResult<&'a [u8], TlsExtension<'a>>")],
+         "splices": [{"at_start": True, "text": "    proof { reveal_with_fuel(be_val, 5); axiom_be_fun(); assert(be_post(4, i@, fun_of(be_u32)(i), |v: u32| v as int)); }"}],
+         "contract": "    ensures early_data_post(i@, ext_len, r),"},
+        {"file": F_EXT, "kind": "fn", "name": "parse_tls_extension_signed_certificate_timestamp_content",
+         "subst": [(r"TlsExtension::SignedCertificateTimestamp,\n", "|x: Option<&'a [u8]>| -> (e: TlsExtension<'a>) ensures e == TlsExtension::SignedCertificateTimestamp(x) { TlsExtension::SignedCertificateTimestamp(x) },\n"),
+                   (r"fn parse_tls_extension_signed_certificate_timestamp_content\(\s*i: &\[u8\],?\s*\) -> IResult<&\[u8\], TlsExtension>", "fn parse_tls_extension_signed_certificate_timestamp_content<'a>(i: &'a [u8]) -> IResult<&'a [u8], TlsExtension<'a>>")],
+         "splices": [{"at_start": True, "text": "    proof { reveal_with_fuel(be_val, 3); axiom_be_fun(); assert(be_post(2, i@, fun_of(be_u16)(i), |v: u16| v as int)); }"}],
+         "contract": "    ensures sct_ext_post(i@, r),"},
         empty("parse_tls_extension_encrypt_then_mac_content", "EncryptThenMac"),
         empty("parse_tls_extension_extended_master_secret_content", "ExtendedMasterSecret"),
         empty("parse_tls_extension_post_handshake_auth_content", "PostHandshakeAuth"),
